@@ -120,6 +120,11 @@ func runDistScenario(c *fw.Case, prop string) {
 	// every eighth scenario works in whole numbers only (see C14)
 	do.NiceShares = c.Index%8 == 7
 	e.wholeAmounts = do.NiceShares
+	if prop == "C01" {
+		// C01's distributor-only scenario: whole numbers of a few dozen base units, so that
+		// burn shares land exactly on whole coins, and the burned total is compared exactly
+		do.NiceShares, e.wholeAmounts, e.tinyWhole, e.exactBurn = true, true, true, true
+	}
 	sds := gen.SubDistributors(c.R, do)
 	if sds == nil {
 		c.Describe("no-valid-config")
@@ -156,7 +161,7 @@ func runDistScenario(c *fw.Case, prop string) {
 			}
 		}
 		twin = newDistKeys()
-		twin.wholeAmounts = e.wholeAmounts
+		twin.wholeAmounts, twin.tinyWhole = e.wholeAmounts, e.tinyWhole
 		if err := twin.start(perm, nil); err != nil {
 			c.Inconclusive("twin start: %v", err)
 			return
@@ -286,6 +291,11 @@ func runDistScenario(c *fw.Case, prop string) {
 			}
 		case "C04":
 			e.checkModel(c, obs, "C04")
+			if c.NViol() > 0 {
+				return
+			}
+		case "C01":
+			e.checkModel(c, obs, "C01")
 			if c.NViol() > 0 {
 				return
 			}
